@@ -398,7 +398,7 @@ def user_placeholder(draw, name):
 def templates(draw, max_dirs=4, end_styles=("none", "full", "partial"),
               allow_user=True, allow_wild=True, allow_ms=True,
               min_res=None, allow_dup=True, allow_dir_literal=True,
-              allow_year2=True, allow_doy=True):
+              allow_year2=True, allow_doy=True, coarse_end=False):
     """A path template of the C01/C02 grammar (see DESIGN.md C01 'D.')."""
     year = draw(st.sampled_from(["year", "year", "year2"])) \
         if allow_year2 else "year"
@@ -493,7 +493,12 @@ def templates(draw, max_dirs=4, end_styles=("none", "full", "partial"),
             first = draw(st.integers(0, len(time_fields) - 1))
             if time_fields[first] == "millisecond":
                 first -= 1
-            add_fields(time_fields[first:], "end_")
+            last = len(time_fields)
+            if coarse_end and draw(st.integers(0, 2)) == 0:
+                # the end stops at a coarser field than the start: the finer
+                # ones (seconds, milliseconds) are taken from the start
+                last = draw(st.integers(first + 1, len(time_fields)))
+            add_fields(time_fields[first:last], "end_")
     if not chunk or all(t[0] == "lit" for t in chunk):
         # everything is given by the directories: add one repeated field so
         # that the file pattern is not a constant
